@@ -1,6 +1,8 @@
 //! C07 Euclidean distance is the true minimum distance.
 use crate::build::*;
 use crate::engine::*;
+use crate::enumr::*;
+use geo::Geometry;
 use crate::exact::*;
 use crate::ops::*;
 use serde_json::json;
@@ -57,6 +59,38 @@ fn check_pair(acc: &mut Acc, idx: usize, a: &Shape, b: &Shape, tag: &str) {
             acc.viol(format!("distance {}{}x{} {} {}", tag, a.ty(), b.ty(), kind, dir), idx, wit);
         }
     }
+    // the f32 instantiation (lattice coordinates are exact in f32): same rule, f32 rounding (affine images with large coordinates excluded)
+    if tag.is_empty() && idx % 2 == 0 {
+        acc.evals += 1;
+        match guard(|| distance_f32(&to_f32(&a.g), &to_f32(&b.g))) {
+            Err(e) => acc.viol(format!("distance<f32> {}x{} panic", a.ty(), b.ty()), idx, || json!({"a": a.wkt(), "b": b.wkt(), "panic": e})),
+            Ok(d32) => {
+                let d = d32 as f64;
+                let bad = if d2.is_zero() { d != 0.0 } else { !(((d * d - d2.f()).abs() / d2.f()) <= 2e-6) || d <= 0.0 };
+                if bad {
+                    acc.viol(format!("distance<f32> {}x{} {} wrong", a.ty(), b.ty(), kind), idx, || json!({"a": a.wkt(), "b": b.wkt(), "exact": d2.f().sqrt(), "got_f32": d32}));
+                }
+            }
+        }
+    }
+    // exact power-of-two scalings of both operands (2^-30 and 2^30): the distance must be the scaled exact distance (no absolute threshold anywhere)
+    if tag.is_empty() && idx % 3 == 0 {
+        use geo::MapCoords;
+        for sc in [1.0 / 1073741824.0, 1073741824.0] {
+            acc.evals += 1;
+            let (sa, sb) = (a.g.map_coords(|c| geo::Coord { x: c.x * sc, y: c.y * sc }), b.g.map_coords(|c| geo::Coord { x: c.x * sc, y: c.y * sc }));
+            match guard(|| distance_concrete(&sa, &sb)) {
+                Err(e) => acc.viol(format!("distance {}x{} panic at scale {:e}", a.ty(), b.ty(), sc), idx, || json!({"a": a.wkt(), "b": b.wkt(), "panic": e})),
+                Ok(d) => {
+                    let want2 = d2.f() * sc * sc;
+                    let bad = if d2.is_zero() { d != 0.0 } else { !(((d * d - want2).abs() / want2) <= 1e-12) };
+                    if bad {
+                        acc.viol(format!("distance {}x{} {} wrong at scale 2^{}", a.ty(), b.ty(), kind, if sc < 1.0 { -30 } else { 30 }), idx, || json!({"a": a.wkt(), "b": b.wkt(), "scale": sc, "exact": (want2).sqrt(), "got": d}));
+                    }
+                }
+            }
+        }
+    }
     if ab.to_bits() != ba.to_bits() {
         acc.viol(format!("distance asymmetric {}{}x{}", tag, a.ty(), b.ty()), idx, wit);
     }
@@ -99,6 +133,27 @@ pub fn run(mut run: Run) -> i32 {
         let n4 = g4.len();
         run.stage("pairs-G4", n4 * n4, |idx, acc| {
             check_pair(acc, idx, &g4[idx / n4], &g4[idx % n4], "[G4]");
+        });
+    }
+    // far pairs of rings with 7 and 8 vertices (line strings and polygons): more than 6 segments per operand, so the segment R-tree has several nodes,
+    // and separations well above 1
+    {
+        let big: Vec<Vec<IP>> = rings(3, 8).into_iter().filter(|r| r.len() >= 7).step_by(if run.ctx.quick() { 3 } else { 1 }).collect();
+        let shifts: Vec<IP> = vec![(4, 1), (5, -3), (-6, 2), (3, 7), (-4, -5), (9, 0), (0, -8), (7, 7)];
+        let (nb, nsft) = (big.len(), shifts.len());
+        run.stage("far-pairs-many-segments", nb * nb * nsft, |idx, acc| {
+            let (ra, rb, sft) = (&big[idx / (nb * nsft)], &big[(idx / nsft) % nb], shifts[idx % nsft]);
+            let rb: Vec<IP> = rb.iter().map(|p| (p.0 + sft.0, p.1 + sft.1)).collect();
+            let (pa, pb) = (Poly { shell: ra.clone(), holes: vec![] }, Poly { shell: rb.clone(), holes: vec![] });
+            let mk = |as_poly: bool, r: &Vec<IP>, p: &Poly| -> Shape {
+                if as_poly {
+                    Shape::new(AG::Polys(vec![p.clone()]), Geometry::Polygon(poly(p)), "FAR")
+                } else {
+                    Shape::new(AG::Lines(vec![close(r)]), Geometry::LineString(ring_ls(r)), "FAR")
+                }
+            };
+            let v = idx % 4;
+            check_pair(acc, idx, &mk(v & 1 == 1, ra, &pa), &mk(v & 2 == 2, &rb, &pb), "[far] ");
         });
     }
     // inside-hole family: donuts on the doubled lattice with every doubled G3 shape
